@@ -59,6 +59,12 @@
 (*                   shared value; every enclosing object adds its path    *)
 (*                   segment to it in place, so paths grow across calls    *)
 (*                   (and the slice is raced)                              *)
+(*   SortInPlace     the alternatives of a required_if_not rule are sorted *)
+(*                   for the error message ON THE SCHEMA'S OWN LIST: a     *)
+(*                   rejected call permutes the declaration                *)
+(*   ConvertInPlace  the any schema converts the items of a []any in the   *)
+(*                   caller's own slice (int -> int64, ...), also when the *)
+(*                   call is rejected                                      *)
 (*   NoStepMutex     setupStepData without initializerMutex (step.go 201)  *)
 (*   EnumEarlyReturn enum compatibility returns at the first matching key  *)
 (*                   (enum.go 53-97 before its repair)                     *)
@@ -74,7 +80,7 @@
 EXTENDS Integers, Sequences, FiniteSets, TLC
 
 CONSTANTS G, MaxCalls, Kinds, Origins,
-          AliasDefaults, LazyUnsync, CollideEither, StripInPlace, StripRestore, DirtyScratch, SharedMarks, SharedInProgress, StaleMemo, SharedError, NoStepMutex,
+          AliasDefaults, LazyUnsync, CollideEither, StripInPlace, StripRestore, DirtyScratch, SharedMarks, SharedInProgress, StaleMemo, SharedError, SortInPlace, ConvertInPlace, NoStepMutex,
           EnumEarlyReturn, SubOverride
 
 VARIABLES inst,          \* [kind, origin]
@@ -136,15 +142,18 @@ HasSub(kind) == kind = "objstruct"
 \* struct-mapped objects propagate sub-object defaults; a schema rebuilt from its description is map-based
 StructMapped(i) == i.kind = "objstruct" /\ i.origin # "rebuilt"
 HasMult(kind) == kind = "units"          \* "units0": a definition without multipliers (characters, percent)
-Describe(i) == [kind |-> i.kind, root |-> DeclRoot(i.kind), inner |-> DeclInner(i.kind)]
+\* the self-description; "rules": the rule lists (conflicts, required_if_not) in the order they were declared
+Describe(i) == [kind |-> i.kind, root |-> DeclRoot(i.kind), inner |-> DeclInner(i.kind), rules |-> "declared"]
 
 \* "objdep": a struct-mapped object with pointer fields a, b, c, d (paths n, t, sa, sb of the flat map) and
-\* the rules: a conflicts with b; c is an integer of at most CMax; d is required unless b is given
+\* the rules: a conflicts with [c, b]; c is an integer of at most CMax; d is required unless one of [b, a] is
+\* given (both lists declared in non-alphabetical order)
 CMax == 10
+DNotMissing(present) == "sb" \in present \/ "t" \in present \/ "n" \in present
 DepVerdict(present, m) ==
     /\ ~(m["sa"] # Absent /\ m["sa"] > CMax)
-    /\ ~("n" \in present /\ "t" \in present)
-    /\ ("sb" \in present \/ "t" \in present)
+    /\ ~("n" \in present /\ ("t" \in present \/ "sa" \in present))
+    /\ DNotMissing(present)
 PresentIn(m) == {p \in P : m[p] # Absent}
 
 \* "objnest": struct-mapped root {n?, limits?: mid}; mid is MAP-BASED {u?, burst?: leaf} and has no default of
@@ -185,6 +194,11 @@ Ops(kind) ==
            {Call("unser", Arg("empty", Empty)), Call("unser", Arg("n1", Flat(1, Absent, Absent, Absent))),
             Call("unser", Arg("s_a1", Flat(Absent, Absent, 1, Absent))), Call("unser", Arg("bad", Empty)),
             Call("ser", Arg("full", Flat(1, Absent, 1, 1)))}
+      [] kind = "anylist" ->
+           \* an any schema (or an any-typed property) given a []any whose items are not in canonical form
+           {Call(op, Arg("list_mixed", Flat(1, Absent, Absent, Absent))) : op \in {"unser", "valid", "ser"}}
+           \cup {Call(op, Arg("list_bad", Flat(1, Absent, Absent, Absent))) : op \in {"unser", "valid"}}
+           \cup {Call("unser", Arg("map_list", Flat(1, Absent, Absent, Absent)))}
       [] kind = "disabled" ->
            \* root{settings: ref S}, S{legacy: disabled without a reason, keep}
            {Call("unser", Arg("uses_disabled", Empty)), Call("compat", Arg("uses_disabled", Empty)),
@@ -257,6 +271,8 @@ PureSet(i, op, arg) ==
            (CASE arg.tok = "collide" -> {Res(TRUE, Empty, 1), Res(TRUE, Empty, 2), Res(FALSE, Empty, 0)}
               [] arg.tok = "single" -> {Res(TRUE, Empty, 1)}
               [] OTHER -> {Res(FALSE, Empty, 0)})
+      [] k = "anylist" ->
+           (IF arg.tok = "list_bad" THEN {Res(FALSE, Empty, 0)} ELSE {Res(TRUE, Empty, 0)})
       [] k = "disabled" ->
            \* a rejection carries the path of the offending element: n = its length (two enclosing objects)
            (CASE arg.tok = "keeps" -> {Res(TRUE, Empty, 1)}
@@ -399,6 +415,8 @@ Entry(c) ==
       [] K = "objnest" /\ NestStruct(inst) -> "N2"
       [] K = "oneof" /\ c.arg.tok # "nodisc" -> "O1"
       [] K = "objdep" /\ c.op \in {"valid", "ser"} /\ inst.origin # "rebuilt" -> "V1"   \* validateStruct
+      [] K = "objdep" -> "V0"                                                          \* the map forms
+      [] K = "anylist" -> "A1"
       [] K = "steps" -> IF NoStepMutex THEN "L1" ELSE "L0"
       [] OTHER -> "C1"                              \* no shared state touched: compute and return
 
@@ -714,6 +732,12 @@ NestMid(g) ==
        IN SetLoc(g, "res", Res(TRUE, MergeOver(top, MidUnser(cur[g].arg.m, cell)), 0))
     /\ Goto(g, "ret") /\ UNCHANGED <<defaultsCache, cell>> /\ ObjFrame
 
+\* the message "required because none of ... are set" is built when d and all its alternatives are left out (and
+\* no field is out of range first): under the deviation the schema's own list is sorted for it
+AfterRuleMessage(m) ==
+    IF SortInPlace /\ ~(m["sa"] # Absent /\ m["sa"] > CMax) /\ ~DNotMissing(PresentIn(m))
+    THEN [descr EXCEPT !.rules = "sorted"] ELSE descr
+
 \* ------------------------------------------------------------------ struct-mapped object: validateStruct
 \* The set of present fields is collected in a scratch map, then the interdependency rules are judged on it.
 \* A field that violates its own constraint ends the loop early.
@@ -729,9 +753,28 @@ ValidateStruct(g) ==
                      scratch' = IF DirtyScratch THEN got \cup S ELSE {}
           ELSE /\ SetLoc(g, "res", IF DepVerdict(got \cup PresentIn(m), m) THEN Res(TRUE, m, 0) ELSE Res(FALSE, Empty, 0))
                /\ scratch' = {}
+    /\ descr' = AfterRuleMessage(cur[g].arg.m)
     /\ Goto(g, "ret")
-    /\ UNCHANGED <<inst, phase, link, defaultsCache, cell, unitCache, table, initCount, mutex, descr, argmem, cur,
+    /\ UNCHANGED <<inst, phase, link, defaultsCache, cell, unitCache, table, initCount, mutex, argmem, cur,
                    ncalls, hist>>
+\* Unserialize (and the map forms of a rebuilt schema): the rules are judged on a fresh map
+DepMap(g) ==
+    /\ At(g, "V0")
+    /\ SetLoc(g, "res", CHOOSE r \in PureSet(inst, cur[g].op, cur[g].arg) : TRUE)
+    /\ descr' = AfterRuleMessage(cur[g].arg.m)
+    /\ Goto(g, "ret")
+    /\ UNCHANGED <<inst, phase, link, defaultsCache, cell, unitCache, table, initCount, scratch, mutex, argmem, cur,
+                   ncalls, hist>>
+
+\* ------------------------------------------------------------------ any schema: lists
+\* path n of the caller's value stands for an item in a non-canonical representation (int, uint8, float32, ...)
+AnyConvert(g) ==
+    /\ At(g, "A1")
+    \* DEVIATION: the converted item is written back into the caller's slice - also when a later item is refused
+    /\ argmem' = IF ConvertInPlace /\ cur[g].arg.m["n"] # Absent THEN [argmem EXCEPT ![g]["n"] = 2] ELSE argmem
+    /\ SetLoc(g, "res", CHOOSE r \in PureSet(inst, cur[g].op, cur[g].arg) : TRUE)
+    /\ Goto(g, "ret")
+    /\ UNCHANGED <<inst, phase, link, defaultsCache, cell, unitCache, table, initCount, scratch, mutex, descr, cur, ncalls, hist>>
 
 \* ------------------------------------------------------------------ callable step: setupStepData (step.go 200-223)
 StepFrame == UNCHANGED <<inst, phase, link, defaultsCache, cell, unitCache, scratch, mutex, descr, argmem, cur, ncalls, hist>>
@@ -770,7 +813,7 @@ Step(g) ==
     \/ TopFill(g) \/ SubResolve(g) \/ SubTakeDefault(g)
     \/ SubPropagate(g, "S3a", "sa", "S3b") \/ SubPropagate(g, "S3b", "sb", "S4") \/ SubRead(g) \/ SubOwn(g)
     \* one-of, struct validation, steps
-    \/ OneOfStrip(g) \/ OneOfMemberDone(g) \/ ValidateStruct(g) \/ NestPropagate(g) \/ NestMid(g)
+    \/ OneOfStrip(g) \/ OneOfMemberDone(g) \/ ValidateStruct(g) \/ DepMap(g) \/ AnyConvert(g) \/ NestPropagate(g) \/ NestMid(g)
     \/ ErrSegment(g, "E1", "E2", FALSE) \/ ErrSegment(g, "E2", "ret", TRUE)
     \/ WalkRead(g) \/ WalkMark(g) \/ WalkClear(g) \/ WalkDone(g)
     \/ CmpBegin(g, "Q1", "pair.root", "Q2", "Q1x") \/ CmpRootUnderWay(g)
